@@ -255,8 +255,8 @@ theorem mergeArgs_illTyped (rec : String → Option Val → Val → Except Err V
 
 /-! ### the end of the parse -/
 
-theorem finalizeArgs_keys (rec : Val → Except Err Val) (ia : KV) :
-    ∀ (ps : List IParam) (out : KV), finalizeArgsWith rec ia ps = .ok out → out.map (·.1) = ps.map (·.name)
+theorem finalizeArgs_keys (rec : KV → Val → Except Err Val) (fallback ia : KV) :
+    ∀ (ps : List IParam) (out : KV), finalizeArgsWith rec fallback ia ps = .ok out → out.map (·.1) = ps.map (·.name)
   | [], out, h => by simp only [finalizeArgsWith] at h; cases h; rfl
   | p :: ps, out, h => by
     simp only [finalizeArgsWith] at h
@@ -266,19 +266,19 @@ theorem finalizeArgs_keys (rec : Val → Except Err Val) (ia : KV) :
       · cases h
       · rename_i rest hr
         cases h
-        simp [finalizeArgs_keys rec ia ps rest hr]
+        simp [finalizeArgs_keys rec fallback ia ps rest hr]
 
-theorem finalizeArgs_missing (rec : Val → Except Err Val) (ia : KV) :
-    ∀ (ps : List IParam), (∃ p ∈ ps, p.dflt = none ∧ getKV p.name ia = none) →
-      ∃ err, finalizeArgsWith rec ia ps = .error err
+theorem finalizeArgs_missing (rec : KV → Val → Except Err Val) (fallback ia : KV) :
+    ∀ (ps : List IParam), (∃ p ∈ ps, p.dflt = none ∧ getKV p.name ia = none ∧ fallbackValue fallback p = none) →
+      ∃ err, finalizeArgsWith rec fallback ia ps = .error err
   | [], ⟨p, hp, _⟩ => by cases hp
-  | q :: ps, ⟨p, hp, hd, hg⟩ => by
+  | q :: ps, ⟨p, hp, hd, hg, hf⟩ => by
     simp only [finalizeArgsWith]
     rcases List.mem_cons.mp hp with rfl | hp'
-    · simp [hg, hd]
+    · simp [hg, hd, hf]
     · split
       · exact ⟨_, rfl⟩
-      · obtain ⟨err, he⟩ := finalizeArgs_missing rec ia ps ⟨p, hp', hd, hg⟩
+      · obtain ⟨err, he⟩ := finalizeArgs_missing rec fallback ia ps ⟨p, hp', hd, hg, hf⟩
         simp [he]
 
 /-! ### instantiation: the log only grows, one entry per spec, references point backwards -/
